@@ -89,6 +89,13 @@ CHECKS = {
              'indefinite length, strings segmented up to depth 3, SETs permuted, in all 15 non-empty combinations; every variant is re-parsed by '
              'my strict reader and must decode to the encoded value.',
         note='Variants come from my writer only (the 2^4 combination table is reported); time types are not segmented.'),
+    'C05': dict(
+        category='exploration', design_ref='DESIGN.md 4 C05',
+        technique='runtime monitoring: reference-model oracle (independent executable X.691 PER/UPER model from my AST, gated by the 8 Annex A vectors) compared bit-for-bit, and the library decoder run on the model bytes',
+        text='Every PER and UPER encoding produced by the library for generated modules/values (all constraint shapes, extension additions and groups, '
+             'CHOICE/ENUMERATED index ordering, numeric_enums) is compared byte-for-byte with vf/models/x691.py; the library must also decode the model bytes.',
+        note='Trusts vf/models/x691.py (Annex A.1-A.4 aligned+unaligned gate the run); cases the model declares undecided are counted and skipped; '
+             'seven mechanisms where the library differs from X.691 are known findings.'),
     'C07': dict(
         category='exploration', design_ref='DESIGN.md 4 C07',
         technique='runtime monitoring: reference oracle (projection of the version-2 value onto the version-1 AST) over generated version pairs, 7 decoders, both directions',
